@@ -175,6 +175,29 @@ def run_env(program: Dict[str, Any], env: str) -> Dict[str, Any]:
                     else:
                         run0.state = E.build_state(run0.world)
         return run_env(program, "E6b")
+    if env == "E8":
+        # a warm process that has served ANOTHER world before: same graphs, same number of memories under the same ids, other
+        # texts and vectors; that engine state is dropped and collected before this program runs
+        import gc
+        other = copy.deepcopy(program["world"])
+        orng = Rng(int(program["clock_seed"]) + 99).stream("other")
+        for ep in other.get("episodes") or []:
+            ep["text"] = " ".join(orng.sample(E.VOCAB, 2))
+            if isinstance(ep.get("vec"), str) and ep["vec"] not in ("zero", "none"):
+                ep["vec"] = "text"
+        with Scratch() as root0:
+            e0 = E.EngineEnv(root0, SimClock(None, "steady"))
+            e0.leave_process_state = True
+            with e0 as ee0:
+                run0 = E.EngineRun(other, program["cfg"], ee0)
+                for op in program["ops"]:
+                    if op.get("op") != "restart":
+                        run0.step(op)
+                    else:
+                        run0.state = E.build_state(run0.world)
+                del run0
+        gc.collect()
+        return run_env(program, "E6b")
     rng = Rng(int(program["clock_seed"]))
     if env == "E1":
         clock = SimClock(rng.stream("clock"), program.get("profile", "slow"),
@@ -318,6 +341,8 @@ def execute(program: Dict[str, Any]) -> Dict[str, Any]:
         envs["dirorder"] = run_env(program, "E5")
         stats["restart_runs"] = 1
     envs["warmcaches"] = run_env(program, "E6")
+    if program["world"].get("episodes"):
+        envs["warmother"] = run_env(program, "E8")
     if any(isinstance(e.get("ts"), str) and e["ts"] and not e["ts"].endswith("Z") and "+" not in e["ts"] for e in program["world"].get("episodes") or []):
         envs["tz"] = run_env(program, "E7")
         stats["tz_runs"] = 1
@@ -339,7 +364,7 @@ def execute(program: Dict[str, Any]) -> Dict[str, Any]:
         if name.startswith("hashseed"):
             faults[name.replace(":", "_")] = faults.get(name.replace(":", "_"), 0) + 1
         d = _first_diff(base, art)
-        if d is not None and name == "warmcaches":
+        if d is not None and name in ("warmcaches", "warmother"):
             # which part of the difference is stage-cache diagnostics (counters, the gauge that is only measured on a fresh
             # computation)?  Those are reported under ONE signature; anything beyond them under its own.
             d2 = _first_diff(*_mask_cache_diagnostics(base, art))
